@@ -1,4 +1,5 @@
 import SlipVerif.Model.Seq
+import SlipVerif.Lemmas.Seq
 /-
   C14 — the calls a function with side effects observes, where the language fixes them
   (`everyTrace`, `someTrace`, `mapTrace`, `reduceTrace` of Model/Seq.lean; the harness wraps the
@@ -86,12 +87,12 @@ theorem some_calls (f : List Obj → Obj) (seqs : List (List Obj)) :
     refine ⟨?_, callsUntil_all _ _ h⟩
     have : (tuples seqs).any (fun tup => truthy (f tup)) = false := by
       rw [List.any_eq_false]; intro t ht; simpa using h t ht
-    rw [this]; rfl
+    rw [truthy_firstTruthy, this]
   · right
     refine ⟨?_, pre, t, post, hsplit, hpre, ht, ?_⟩
     · have : (tuples seqs).any (fun tup => truthy (f tup)) = true := by
         rw [List.any_eq_true]; exact ⟨t, by rw [hsplit]; simp, ht⟩
-      rw [this]; rfl
+      rw [truthy_firstTruthy, this]
     · rw [hsplit]; exact callsUntil_first _ pre post t hpre ht
 
 /-- `map` / `mapcar`: the function is applied to every argument tuple in order, and the result is
